@@ -982,7 +982,18 @@ class Interp:
             if isinstance(cur, SList) and cur.kind == "list" and isinstance(node.op, ast.Add):
                 cur.items.extend(self.iter_concrete(v))
                 return
-            self.assign(node.target, self.binop(node.op.__class__.__name__, cur, v), env)
+            new = self.binop(node.op.__class__.__name__, cur, v)
+            if isinstance(cur, SArr) and cur.kind == "ndarray" and isinstance(new, SArr):
+                # `a op= b` on a numpy array works IN PLACE: every alias of the buffer sees it, and so does the array it is a
+                # view of (frame obligations must see the write); values seen through a base array are not updated
+                # here (an Undecided is raised if such a base is read again would be needed -- conservatively we mark it)
+                self.lib.inplace_array_update(self, node.target, cur, new, env)
+                return
+            if isinstance(cur, (SSeries, SFrame)) and self.ctx.frozen:
+                for o in (cur, getattr(cur, "shares", None)):
+                    if o is not None and id(o) in self.ctx.frozen:
+                        self.ctx.mutated.append((o, "in-place operator"))
+            self.assign(node.target, new, env)
         elif isinstance(node.target, ast.Attribute):
             obj = self.eval(node.target.value, env)
             cur = self.getattr(obj, node.target.attr)
